@@ -227,9 +227,13 @@ def build_job(r, ext):
             parts.append(f"printf '%s' {_sh_quote(c['out'])}")
         if c["err"]:
             parts.append(f"printf '%s' {_sh_quote(c['err'])} >&2")
-        for k, (at, missing) in enumerate(r["rets"]):
+        for k, rt_ in enumerate(r["rets"]):
+            at, missing = rt_[0], rt_[1]
             if at % ncmd == i and not missing:
-                parts.append(f"printf 'RET{k}\\000\\377 payload %s' {k} > ret{k}.dat")
+                if len(rt_) > 2 and rt_[2]:
+                    parts.append(f": > ret{k}.dat")          # the requested file exists and is EMPTY (a marker file, no hits)
+                else:
+                    parts.append(f"printf 'RET{k}\\000\\377 payload %s' {k} > ret{k}.dat")
         if fail_at == i and c.get("sig"):
             # this command fails by DYING from a signal (out-of-memory killer, segmentation fault): negative return code
             parts.append(f"kill -{['KILL', 'SEGV', 'TERM'][c['sig'] - 1]} $$; sleep 5")
@@ -357,9 +361,10 @@ def check_exec(r) -> list[Fail]:
             if (out.stderrs or {}) != exp_err:
                 fails.append(Fail("stderr-capture-wrong", f"{via}: {out.stderrs} vs {exp_err}"))
             exp_files = {}
-            for k, (at, missing) in enumerate(r["rets"]):
+            for k, rt_ in enumerate(r["rets"]):
+                at, missing = rt_[0], rt_[1]
                 if not missing and at % ncmd in ran:
-                    exp_files[f"ret{k}.dat"] = b"RET%d\x00\xff payload %d" % (k, k)
+                    exp_files[f"ret{k}.dat"] = b"" if (len(rt_) > 2 and rt_[2]) else b"RET%d\x00\xff payload %d" % (k, k)
             if (out.files or {}) != exp_files:
                 fails.append(Fail("returned-files-wrong", f"{via}: got {sorted(out.files or {})} sizes {[len(v) for v in (out.files or {}).values()]}, expected {sorted(exp_files)}"))
             ih = out.input_hash
@@ -390,7 +395,7 @@ def check_exec(r) -> list[Fail]:
 def classify_exec(r):
     ncmd = len(r["cmds"])
     fa = r["fail_at"] if r["fail_at"] is not None and r["fail_at"] < ncmd else None
-    miss = any(m or (fa is not None and at % ncmd > fa) for at, m in r["rets"])
+    miss = any(m or (fa is not None and at % ncmd > fa) for at, m, *_ in r["rets"])
     binf = any(k == "bin" for k, _ in r["files"])
     lab = (["failure=program_cannot_be_started"] if fa is not None and r["cmds"][fa].get("noexe") else ["failure=killed_by_signal"] if fa is not None and r["cmds"][fa].get("sig") else []) + [f"ncmd={ncmd}", f"fail_at={fa}", "real" if r["real"] else "fork", "env_override" if r["env"] else "env_inherited"] + (["missing_return_file"] if miss else []) + (["binary_file"] if binf else [])
     return (ncmd >= 2 and fa is not None and fa > 0) or miss or binf, lab
@@ -404,7 +409,7 @@ def strat_exec(tier):
         "jid": st.sampled_from(["job", "j-1", "mol_A"]), "cmds": st.lists(cmd, min_size=1, max_size=4),
         "fail_at": st.one_of(st.none(), st.integers(0, 3)),
         "files": st.lists(st.tuples(st.sampled_from(["text", "bin"]), st.integers(0, 400)).map(list), max_size=3),
-        "rets": st.lists(st.tuples(st.integers(0, 3), st.booleans()).map(list), max_size=3),
+        "rets": st.lists(st.tuples(st.integers(0, 3), st.booleans(), st.sampled_from([False, False, True])).map(list), max_size=3),
         "env": st.one_of(st.none(), st.tuples(st.sampled_from(["jobA", "x y", ""]), st.sampled_from(["jobB", "é"])).map(list)),
         "real": st.just(False) if tier == "quick" else st.just(True), "rel": st.booleans(), "path_tool": st.sampled_from([False, False, True]),
     })
